@@ -288,6 +288,56 @@ EXPLANATION = (
 )
 
 
+def check_roundable_atoms(run, fx):
+    """the atoms of the decision table (R12.apply-unsigned) mean what their names say"""
+    rule = "R1.roundable-atoms"
+    run.rule(rule, "for every Roundable implementation: is_exact, compare_remainder, is_even_cardinal, result_floor and result_ceil, "
+                   "folded over every residue and both quotient parities of an even (10), an odd (3, 7) and the unit increment and "
+                   "both signs, equal their definitions in exact arithmetic (r = |x| mod d: exact iff r = 0; the comparison is "
+                   "that of 2r with d; the cardinal is floor(|x| / d); floor / ceil are that and that + 1)")
+    rs = fx["temporal_rs"]
+    impls = sorted({f.path.split(" as ")[0][1:] for f in rs.fns if " as temporal_rs::rounding::Roundable>::result_floor" in f.path})
+    if len(impls) < 2:
+        run.anchor_missing(rule, "impls", "expected the i128 and f64 Roundable implementations, found %s" % impls)
+    ORD = "core::cmp::Ordering::"
+    for ty in impls:
+        conv = float if ty in ("f64", "f32") else int
+        fns = {m: rs.fn("<%s as temporal_rs::rounding::Roundable>::%s" % (ty, m))
+               for m in ("is_exact", "compare_remainder", "is_even_cardinal", "result_floor", "result_ceil")}
+        if any(v is None for v in fns.values()):
+            run.anchor_missing(rule, ty, "Roundable methods of %s not found" % ty)
+            continue
+        bad = {m: [] for m in fns}
+        und = {m: 0 for m in fns}
+        cells = 0
+        for d in (10, 3, 7, 1):
+            for a in range(0, 4 * d + 1):
+                for sgn in ((1, -1) if a else (1,)):
+                    x = sgn * a
+                    r, q = a % d, a // d
+                    want = {"is_exact": r == 0,
+                            "compare_remainder": H.V(H.SOME, (H.V(ORD + ("Less" if 2 * r < d else "Greater" if 2 * r > d else "Equal"), ()),)),
+                            "is_even_cardinal": q % 2 == 0, "result_floor": q, "result_ceil": q + 1}
+                    for m, f in fns.items():
+                        if r == 0 and m in ("compare_remainder", "is_even_cardinal", "result_ceil"):
+                            continue        # never consulted for an exact value (step 1 of ApplyUnsignedRoundingMode)
+                        cells += 1
+                        got = fold(H.Evaluator(fx), f, [conv(x), conv(d)])
+                        if got[0] == "opaque" or got[0] == "panic":
+                            und[m] += 1
+                        elif not (got[0] == "val" and got[1] == want[m]):
+                            bad[m].append("%s(%d, %d) = %s, expected %s" % (m, x, d, show(got[1])[:40], show(want[m])[:40]))
+        for m in fns:
+            key = "%s/%s" % (ty, m)
+            if und[m]:
+                run.ok(rule, key, "%d cell(s) do not fold: not decided" % und[m], fns[m].loc, nontrivial=False)
+            else:
+                run.check(not bad[m], rule, key, "equals its definition on every residue class",
+                          "<%s as Roundable>::%s differs from its definition: %s" % (ty, m, "; ".join(bad[m][:4])), fns[m].loc)
+        run.analysed["roundable_cells_%s" % ty] = cells
+    run.exhaustive_tables.append("Roundable atoms (residues x quotient parity x sign for d = 10, 3, 7, 1)")
+
+
 def main(tier):
     run = Run("C07", tier)
     fx = Facts("full")
@@ -296,40 +346,8 @@ def main(tier):
     run_checks(run, fx)
     run.assumptions += ["the specification tables transcribed in tlint/props/c07.py (GetUnsignedRoundingMode, "
                         "NegateRoundingMode, ApplyUnsignedRoundingMode) are correct",
-                        "is_exact / result_floor / result_ceil / is_even_cardinal mean what their names say "
-                        "(their arithmetic is not decided here)"]
-    # sibling agreement inside Roundable: the parity used for half-even is the parity of r1 (result_floor), the lower
-    # neighbour the unsigned rounding chooses between - not of some other quotient
-    rule = "R6.cardinality-of-result-floor"
-    run.rule(rule, "for every Roundable implementation, is_even_cardinal tests the parity of the value result_floor returns for "
-                   "the same arguments (r1 of ApplyUnsignedRoundingMode): either by calling result_floor or through the same "
-                   "quotient expression; a differently rounded quotient (floor instead of truncated magnitude) has the other "
-                   "parity for negative non-multiples")
-    rsx = fx["temporal_rs"]
-    impls = sorted({f.path.split(" as ")[0][1:] for f in rsx.fns if " as temporal_rs::rounding::Roundable>::result_floor" in f.path})
-    if len(impls) < 2:
-        run.anchor_missing(rule, "impls", "expected the i128 and f64 Roundable implementations, found %s" % impls)
-    for ty in impls:
-        rf = rsx.fn("<%s as temporal_rs::rounding::Roundable>::result_floor" % ty)
-        ie = rsx.fn("<%s as temporal_rs::rounding::Roundable>::is_even_cardinal" % ty)
-        if rf is None or ie is None:
-            run.anchor_missing(rule, ty, "result_floor / is_even_cardinal not found")
-            continue
-        terms = {}
-        for nm, g in (("rf", rf), ("ie", ie)):
-            ev = H.Evaluator(fx)
-            ev.inline = lambda p: False
-            terms[nm] = ev.call_fn(g, [H.Sym("param", (p["name"],)) for p in ("dividend", "divisor")] if False else
-                                   [H.Sym("param", (p["name"],)) for p in g.params])
-        core = terms["rf"]
-        while isinstance(core, H.Sym) and core.what == "cast":
-            core = core.parts[0]
-        s_ie, s_core = show(terms["ie"]), show(core)
-        names = [p["name"] for p in rf.params]
-        calls_rf = "result_floor($%s, $%s)" % tuple(names) in s_ie
-        run.check(calls_rf or s_core in s_ie, rule, ty, "parity of %s" % ("result_floor(..)" if calls_rf else s_core[:60]),
-                  "<%s as Roundable>::is_even_cardinal = %s does not test the parity of result_floor = %s" %
-                  (ty, s_ie[:120], show(terms["rf"])[:80]), ie.loc)
+                        "is_exact / compare_remainder / result_floor / result_ceil / is_even_cardinal are decided on every "
+                        "residue class of the increments 10, 3, 7 and 1 (R1.roundable-atoms), not for every increment"]
     # R11: to-string paths skip the rounding kernel only when rounding is the identity
     rule = "R11.rounding-skipped-only-when-identity"
     run.rule(rule, "a to-string operation returns without calling a rounding kernel only on paths that decided BOTH the resolved "
@@ -368,4 +386,5 @@ def main(tier):
                   "increment == ONE` (decided only %s)" % (f.name, bad, why), f.loc)
     from ..rules import extra
     extra.check_to_string_prints_rounded(run, fx)
+    check_roundable_atoms(run, fx)
     return run.finish(EXPLANATION)
